@@ -14,7 +14,7 @@ RULE = ("Histories of 1..60 steps on a real LDM (dictionary back-end, reactive s
         "unknown id), add objects (reactive attendance), explicit attend_subscriptions(), clock advance. A reference subscription model keyed "
         "by the returned id predicts at every attendance which callbacks fire (matching set non-empty, >= multiplicity, interval elapsed at "
         "one-second resolution since the previous notification) and with exactly which objects in which order; no callback after "
-        "unsubscription or deregistration; invalid requests get the specific result code and create nothing. Non-trivial = history with >= 2 "
+        "unsubscription or deregistration (also when the same consumer registers again at once); invalid requests get the specific result code and create nothing. Non-trivial = history with >= 2 "
         "live subscriptions, >= 1 notification and >= 1 unsubscribe/deregister followed by an attendance with matching data.")
 ASSUMPTIONS = [
     "before a subscription's first notification the interval counts from the subscription instant; an attendance earlier than that may or may not notify (no verdict)",
@@ -54,8 +54,12 @@ def case_s():
         lambda t: [t[0]] + t[1] + [t[2], {"op": "attend"}, {"op": "adv", "ms": 1000}, {"op": "attend"}]
         + ([{"op": "unsub", "c": t[0]["c"], "ref": 0, "unknown": False}] if t[3] == "unsub" else ([{"op": "dereg", "c": t[0]["c"]}] if t[3] == "dereg" else []))
         + t[4] + [t[5], {"op": "attend"}])
+    # several subscriptions of ONE consumer side by side, the consumer deregisters and registers again before the next attendance
+    block2 = st.tuples(st.sampled_from(CONSUMERS), st.lists(good_sub, min_size=2, max_size=4), st.lists(add, min_size=1, max_size=3), st.booleans(), st.sampled_from([0, 1000, 2000])).map(
+        lambda t: [dict(x, c=t[0], notify_ms=x["notify_ms"] + 7 * i) for i, x in enumerate(t[1])] + t[2] + [{"op": "dereg", "c": t[0]}] + ([{"op": "reg", "c": t[0]}] if t[3] else [])
+        + [{"op": "adv", "ms": t[4]}, {"op": "attend"}, {"op": "adv", "ms": 1000}, {"op": "attend"}])
     single = op.map(lambda x: [x])
-    return st.lists(st.one_of(single, single, single, block), min_size=3, max_size=30).map(lambda ll: {"ops": pre + [x for l in ll for x in l][:80]})
+    return st.lists(st.one_of(single, single, single, block, block2), min_size=3, max_size=30).map(lambda ll: {"ops": pre + [x for l in ll for x in l][:80]})
 
 
 def run_case(case):
